@@ -403,7 +403,7 @@ def _s15(n, m, k, db):
     return n.leaf == m.leaf, lambda o, ns: OR([o.leaf is p.leaf for p in ns])
 
 
-@shape("contains(n.leaves, leaf0) (membership in a collection relationship)", expect="accept-or-reject", core=False)
+@shape("contains(n.leaves, leaf0) (membership in a collection relationship)", expect="accept-or-reject")
 def _s16(n, m, k, db):
     return contains(n.leaves, db.leaves[0]), lambda o, ns: any(x is db.leaves[0] for x in o.leaves)
 
@@ -481,7 +481,7 @@ def _r4(n, m, k, db):
     return HasType(n, M.SubNode), None
 
 
-@shape("n.leaves[0].v > k0 (indexing)", expect="reject", core=False)
+@shape("n.leaves[0].v > k0 (indexing)", expect="reject")
 def _r5(n, m, k, db):
     return n.leaves[0].v > k[0], None
 
